@@ -1086,7 +1086,7 @@ class DriverLubaRs232(DriverSerialBase):
                 )
             await self._protocol.send_dali_command(msg)
             if msg.is_query:
-                response = command.Response(None)
+                response = msg.response(None)
                 while True:
                     try:
                         raw_rsp = await asyncio.wait_for(
@@ -1684,7 +1684,7 @@ class DriverSCIRS232(DriverSerialBase):
                 )
             await self._protocol.send_dali_command(msg)
             if msg.is_query:
-                response = command.Response(None)
+                response = msg.response(None)
                 while True:
                     try:
                         raw_rsp = await asyncio.wait_for(
